@@ -29,6 +29,14 @@ EXPLANATION = (
     "inv(phi_s[occ]) select the same occupied rows of the same walker block, and block s is selected "
     "with ref_det[s] / nelec[s]. SYM-1 (noci): the down-spin transition density matrix is the mirror "
     "image of the up-spin one. "
+    "HOLO-1: every overlap / Green's-function / overlap-ratio routine is holomorphic in the walker (no "
+    "conj, real, imag, abs, vdot-first-argument applied to a walker-dependent term). SIB-2 (dependence "
+    "form): a class that writes its own restricted entry point depends in it on every wave_data component "
+    "its unrestricted entry point depends on (frozen exception: multislater ref_det[1]). SYM-1 "
+    "(dependence form): each spin block of noci._calc_rdm1 depends on the determinants of both spin "
+    "sectors (pair weights are c_h c_g <h|g> with the full up x down overlap). PAIR-1 on "
+    "pyscf_interface.parity: both ends of the counted segment depend on the creation and the destruction "
+    "index. "
 )
 NOT_DECIDED = (
     "that the determinant / Wick / CI expansions are the right formulas (coefficients, signs, parity): "
